@@ -51,8 +51,12 @@ func (msg Message) generateUnmarshalBebop(w *iohelp.ErrorWriter, settings Genera
 	writeLine(w, "func (bbp *%s) UnmarshalBebop(buf []byte) (err error) {", exposedName)
 	writeLine(w, "\tat := 0")
 	writeLengthCheck(w, "4", 1)
-	writeLine(w, "\t_ = iohelp.ReadUint32Bytes(buf[at:])")
+	writeLine(w, "\tbodyLen := iohelp.ReadUint32Bytes(buf[at:])")
 	writeLine(w, "\tbuf = buf[4:]")
+	// the length prefix frames the message: input that ends before the declared body does is truncated
+	writeLine(w, "\tif uint64(len(buf)) < uint64(bodyLen) {")
+	writeLine(w, "\t\treturn io.ErrUnexpectedEOF")
+	writeLine(w, "\t}")
 	writeLine(w, "\tfor {")
 	writeLengthCheck(w, "1", 2)
 	writeLine(w, "\t\tswitch buf[at] {")
